@@ -58,3 +58,19 @@ Example exF_feasible_negative_t :
   exF_solve_t exF_fm exF_d (exF_o 0) (-2) exF_s =
   (mkState (vals_of exF_s) [Unsolved; Unsolved; Solved; Unsolved] [-1; -1; 1; -1] [], Ret true).
 Proof. vm_compute. reflexivity. Qed.
+
+(* hypotheses of fortran_parsed_solve_t_touches_only_t: Y = X as a Fortran-side program over the same 4-period state *)
+Require Fsic.Fortran.FSem.
+Example exF_parsed_hyps :
+  let prog : list (FSem.eqn float) := [(0%nat, FSem.EVar 1%nat 0)] in
+  py_pos (length (status exF_s)) (-2) = Some 2%nat /\ hd 0%nat (shape (vals_of exF_s)) = length (status exF_s) /\
+  (forall r, In r (FSolve.fm_endo exF_fm) -> 1 <= r <= Z.of_nat (length (vals_of exF_s))) /\
+  (forall i e, In (i, e) prog -> (i < length (vals_of exF_s))%nat).
+Proof.
+  cbv zeta. split; [reflexivity|]. split; [reflexivity|]. split.
+  - intros r [<-|[]]. cbn. lia.
+  - intros i e [H|[]]. inversion H; subst. cbn. lia.
+Qed.
+
+Example exF_parsed_solve_hyps : forall p, In p [1; 2; 3]%nat -> (p < hd 0%nat (shape (vals_of exF_s)))%nat.
+Proof. intros p [<-|[<-|[<-|[]]]]; cbn; lia. Qed.
